@@ -72,6 +72,8 @@ type c10Out struct {
 	mainDone      bool
 	cli           *simnet.Conn
 	log           *logBuf
+	// rescued: the caller was still blocked after 6 simulated hours of silence and the harness closed the client
+	rescued bool
 }
 
 func c10Exec(r *R, ops []cop, capsVariant int, kind int, off int64, netMode int, sched *simrt.Tape, cfg simrt.Config) *c10Out {
@@ -133,6 +135,7 @@ func c10Exec(r *R, ops []cop, capsVariant int, kind int, off int64, netMode int,
 			}
 			r.Tracef("closer: Close() after 6 simulated hours of silence")
 			r.Probe("closed_after_silence")
+			out.rescued = true
 			c.Close()
 		})
 		out.mainDone = waitOrTimeout(mainDone, 12*time.Hour)
@@ -185,6 +188,23 @@ func runC10(r *R) {
 		off = int64(ksel) % (lc2s + 1)
 	} else {
 		off = int64(ksel) % (ls2c + 1)
+		// 1 sampled fault in 4 (never a swept one) lands strictly inside a continuation request line: the commands that
+		// wait for one (IDLE, AUTHENTICATE, synchronising literals) hold the encoder while they wait
+		if (mode == 1 || ksel > c10SweepMax) && ksel%4 == 0 {
+			var marks []int64
+			rcv := dry.cli.Received()
+			for i := 0; i < len(rcv); i++ {
+				if rcv[i] == '+' && (i == 0 || rcv[i-1] == '\n') {
+					for j := i + 1; j < len(rcv) && rcv[j-1] != '\n'; j++ {
+						marks = append(marks, int64(j))
+					}
+				}
+			}
+			if len(marks) > 0 {
+				off = marks[(ksel/4)%len(marks)]
+				r.Probe("fault_inside_continuation_request")
+			}
+		}
 	}
 	r.Tracef("scenario mode=%d #%d caps=%d net=%d ops=%v", mode, scen, capsVariant, netMode, ops)
 	r.Tracef("transcript: server->client %d bytes, client->server %d bytes; fault=%s at offset %d", ls2c, lc2s, faultNames[kind], off)
@@ -197,10 +217,27 @@ func runC10(r *R) {
 		r.Probe("sweep_offsets_in_range")
 	}
 	c10Judge(r, out, kind, "fault")
+	// a server that goes silent in the middle of a response line (not at a line boundary, where the client has no
+	// reason to expect more) is the case the client's own response timeout exists for: the caller must not need rescuing
+	if rcv := dry.cli.Received(); kind == fStall && out.rescued && off > 0 && off < int64(len(rcv)) && rcv[off-1] != '\n' {
+		r.Violate("own-timeout-never-fired", "", "the server stalled after byte %d of its stream, in the middle of the line %q; the client's own response timeout never ended the wait: the caller was still blocked after 6 simulated hours", off, clipStr(c10lineAt(rcv, off), 120))
+	}
 	if len(r.viol) > 0 {
 		r.Tracef("server->client stream (delivered %d of %d): %q", out.cli.InDelivered(), len(out.cli.Received()), clipStr(string(out.cli.Received()), 1500))
 		r.Tracef("client->server stream: %q", clipStr(string(out.cli.Written()), 1500))
 	}
+}
+
+// c10lineAt returns the line of stream that contains offset off.
+func c10lineAt(stream []byte, off int64) string {
+	a, b := int(off), int(off)
+	for a > 0 && stream[a-1] != '\n' {
+		a--
+	}
+	for b < len(stream) && stream[b] != '\n' {
+		b++
+	}
+	return string(stream[a:b])
 }
 
 func c10Judge(r *R, out *c10Out, kind int, phase string) {
